@@ -50,6 +50,22 @@ Theorem C29_no_sigs_error_writes_nothing : forall d,
 Proof. exact no_sigs_error. Qed.
 Print Assumptions C29_no_sigs_error_writes_nothing.
 
+(* Certification (/Perms /DocMDP), usage rights (/Perms /UR3), /DSS, /Legal and /Extensions are
+   gone after EVERY successful removal: no hypothesis on the document, in particular also when
+   there is no usable AcroForm (d_form d = None: catalog without /AcroForm, or one whose /Fields
+   is missing or empty, which validation drops) and the signature is only a widget in a page's
+   /Annots.  In that layout nothing but the catalog changes. *)
+Theorem C29_catalog_cleared_every_layout : forall d d', remove_signatures d = Some d' ->
+  (d_perms d' = false /\ d_dss d' = false /\ d_legal d' = false /\ d_ext d' = false) /\
+  (d_form d = None ->
+     d_pages d' = d_pages d /\ d_others d' = d_others d /\ d_form d' = None /\
+     d_acro d' = d_acro d /\ d_perm d' = d_perm d).
+Proof.
+  intros d d' H. split; [now apply (catalog_cleared d d')|].
+  intros Hn. apply sigs_removed in H as [Hd _]. subst d'. now apply no_form_remove_all.
+Qed.
+Print Assumptions C29_catalog_cleared_every_layout.
+
 (* ---------------- witnesses: the transcribed code violates the full property ---------------- *)
 Definition mkdoc (fields : list field) (sf perms : bool) (pages : list page)
                  (others : list (N * option ftype)) : doc :=
@@ -115,6 +131,17 @@ Proof. exists w_ur. repeat split. Qed.
 Print Assumptions C29_usage_rights_only_refuted.
 
 (* ---------------- non-vacuity ---------------- *)
+(* no AcroForm, signature widget 8 only in page 4's /Annots, catalog with Perms, DSS, Legal, Extensions *)
+Definition ex_noform : doc :=
+  {| d_form := None; d_acro := false; d_perms := true; d_perm := false; d_dss := true;
+     d_legal := true; d_ext := true; d_pages := [(3, Some [9]); (4, Some [8])];
+     d_others := [(8, Some Sig); (9, None)] |}.
+Example C29_noform_nonvacuous :
+  d_form ex_noform = None /\ has_sigs ex_noform = true /\
+  exists d', remove_signatures ex_noform = Some d' /\
+             d_perms d' = false /\ d_dss d' = false /\ d_pages d' = d_pages ex_noform.
+Proof. split; [reflexivity|]. split; [reflexivity|]. eexists. repeat split. Qed.
+
 (* depth-3 forest, two pages, single-kid signature widget, shared non-signature annotation 9 *)
 Definition ex_ok :=
   mkdoc [ Field 10 (Some Tx) false false None
